@@ -35,7 +35,9 @@ func run(c *vlib.Ctx) error {
 		// C01 attaches the external-edit scenarios as an extra run: the just-in-time check is what keeps
 		// content modified after the scan from being deleted or overwritten by a two-way-safe cycle
 		return runEdits(c)
-	case "C09":
+	case "C09", "C10":
+		// C10 attaches the fault scenarios as an extra run: a copy that fails inside the cross-device
+		// fallback must not leave truncated content in the root
 		return runFaults(c)
 	case "C03":
 		return runUnknown(c)
@@ -54,7 +56,7 @@ func replay(c *vlib.Ctx) error {
 	switch c.Prop {
 	case "C16":
 		return replayLinks(c, begin)
-	case "C08", "C09", "C03", "C18", "C01":
+	case "C08", "C09", "C03", "C18", "C01", "C10":
 		return replayTransition(c, begin)
 	}
 	return fmt.Errorf("driver transition does not know property %q", c.Prop)
